@@ -124,6 +124,24 @@ theorem C15_max_min_are_source (a b : Int) :
   · by_cases h : a ≥ b <;> simp [h] <;> omega
   · by_cases h : a ≤ b <;> simp [h] <;> omega
 
+/-- **A hidden input section takes no rows.** While the input section is hidden (--no-input,
+    hide-input, toggle-input) neither the prompt row nor the info row is part of the screen: the
+    fixed rows are the header lines only, and the list has all the other rows of the window. -/
+theorem C15_hidden_input_rows (o : ROpts) (v : View) (h : o.inputless = true) :
+    promptLines o = 0 ∧
+    logical o v = (if o.layout = .reverse then o.header0.map (headerRow o) else (o.header0.map (headerRow o)).reverse) ∧
+    maxItems o = o.H - (o.header0.length + o.headerItems.length) := by
+  have hp : promptLines o = 0 := by unfold promptLines; simp [h]
+  refine ⟨hp, ?_, ?_⟩
+  · unfold logical; simp [h, hp]
+  · unfold maxItems; rw [hp]; omega
+
+/-- … and a shown one takes the prompt row first: the row next to the edge the layout puts the
+    prompt on is the prompt row. -/
+theorem C15_shown_input_first_row (o : ROpts) (v : View) (h : o.inputless = false) :
+    (logical o v).head? = some (promptRow o v.input v.found v.total v.nsel) := by
+  unfold logical; simp [h]
+
 /- Non-vacuity: a concrete screen. -/
 example :
     let o : ROpts := { W := 12, H := 5, layout := .default, info := .default, separator := true, pointer := [62], marker := [42],
@@ -135,5 +153,12 @@ example :
        [62, 32, 97, 98] ++ blanks 8,
        [32, 32, 50, 47, 51, 32, 40, 49, 41, 32, 0x2500, 32],
        [62, 32, 97] ++ blanks 9] := by decide
+
+/- The same state with the input section hidden: three list rows more, no prompt, no counter. -/
+example :
+    let o : ROpts := { W := 6, H := 3, layout := .reverseList, info := .default, separator := true, pointer := [62], marker := [42],
+                       inputless := true }
+    fullRender o { input := [97], found := 1, total := 1, nsel := 0, rows := [⟨[97, 98], 0, false, true, false⟩] }
+    = [[62, 32, 97, 98, 32, 32], blanks 6, blanks 6] := by decide
 
 end Fzf.Props.C15
